@@ -46,8 +46,8 @@ BOUNDS = {
              "(Re and Im independent) symbolic, with / without regularization; (ii) the real TransformerDFT (all masks of 1x2, K=2, two linear "
              "objects, symbolic geometry), preload on/off.",
     "thorough": "as quick with: kernels up to P=4, K=3, S=3; class: every mask of 2x3 and 3x2 (concrete geometries 0-2) and of 2x3 (symbolic geometry, K=3, "
-                "scale pairs (0.5,2.0) and (0.25,0.25)); inversion (i) up to K=4 visibilities and 4 parameters, (ii) all masks of 2x2, K=3, 2+1 parameters, "
-                "with and without regularization.",
+                "scale pairs (0.5,2.0) and (0.25,0.25)); inversion (i) up to K=4 visibilities and up to 4 parameters in two linear objects, "
+                "(ii) all masks of 2x2, K=3, 2+1 parameters, with and without regularization.",
 }
 OUTSIDE = [
     "TransformerNUFFT, the interferometer w-tilde and PyLops (linear-operator) inversions (external library / stubbed code absent)",
@@ -894,9 +894,9 @@ def cases(tier):
                 out.append(("case_class_symbolic", {"H": 2, "W": 3, "K": 3, "S": 2, "preload": pre, "scales": list(sc)}, dict(UF, split=2)))
             for reg in (True, False):
                 out.append(("case_inversion_real", {"H": 2, "W": 2, "K": 3, "S1": 2, "S2": 1, "preload": pre, "reg": reg}, UF))
-        for (K, S1, S2) in ((2, 2, 1), (3, 1, 0), (3, 2, 2), (4, 2, 1), (4, 4, 0)):
+        for (K, S1, S2) in ((2, 2, 1), (3, 1, 0), (3, 2, 2), (4, 2, 1)):
             for reg in (True, False):
-                out.append(("case_inversion_stub", {"K": K, "S1": S1, "S2": S2, "reg": reg}, NRA))
+                out.append(("case_inversion_stub", {"K": K, "S1": S1, "S2": S2, "reg": reg}, dict(NRA, timeout_ms=90000)))
     return out
 
 
